@@ -23,6 +23,7 @@ RULE = ("objects: every shape class 2D/3D with 0-2 landmark groups; images 1-4 c
 ASSUMPTIONS = ["rotations are driven with canonical unit quaternions (w > 0) only", "a wrong-length vector may raise or give a well-formed object; only objects whose basic queries fail are violations",
                "classes that raise NotImplementedError for a dimension are recorded as not vectorizable there"]
 DECIDING_TAPS = ["as_vector", "from_vector"]
+REPLAY_PATHS = ['menpo/transform/test', 'menpo/shape', 'menpo/image/test', 'menpo/model/test']      # suite replay (thorough tier): the repository's own tests under these monitors
 SHARDS = {"quick": 8, "thorough": 16}
 
 
